@@ -522,4 +522,22 @@ example : (parse (joinLines (exItems.map itemLine))).sectors = 4192256 + 8 + 100
       | exact ⟨by decide, by decide⟩
       | (show wfExtent _ = true; decide))).2
 
+/-- **descriptor_settings_last_assignment_wins**: for every list of lines and every key, `descriptor.attr.get(k)`
+    (and `descriptor.ddb.get(k)`) after `parse` is the value of the **last** line that assigns `k` in that dictionary —
+    `None` when no line does.  Extent lines, comments and blank lines assign nothing; a `ddb.*` key never lands in
+    `attr` and vice versa.  This is what `parentCID` / `parentFileNameHint` / `createType` lookups of `VMDK.__init__`
+    rest on (C07 uses it for the parent link). -/
+theorem descriptor_settings_last_assignment_wins (lines : List Str) (hne : lines ≠ []) (h : ∀ l ∈ lines, '\n' ∉ l)
+    (k : Str) :
+    dictGet (parse (joinLines lines)).attr k = (lines.filterMap (lineAssigns false k)).getLast? ∧
+    dictGet (parse (joinLines lines)).ddb k = (lines.filterMap (lineAssigns true k)).getLast? := by
+  rw [parse_eq_fold, splitOn_joinLines lines hne h]
+  have := fold_dicts lines ⟨[], [], [], 0⟩ k
+  simpa [dictGet] using this
+
+example : dictGet (parse (joinLines ["parentCID=ffffffff".toList, "RW 8 FLAT \"a\" 0".toList,
+    "parentCID = \"12ab\"".toList, "ddb.parentCID = \"x\"".toList])).attr "parentCID".toList = some "12ab".toList := by
+  rw [(descriptor_settings_last_assignment_wins _ (by decide) (by decide) _).1]
+  decide
+
 end Hv.C10
